@@ -42,6 +42,7 @@ GEN_SOURCES = {
     "UtilArith.lean": ["src/spake2/util.py"],
     "Consts.lean": ["src/spake2/spake2.py", "src/spake2/params.py", "src/spake2/ed25519_group.py", "src/spake2/parameters/ed25519.py",
                     "src/spake2/parameters/i1024.py", "src/spake2/parameters/i2048.py", "src/spake2/parameters/i3072.py", "src/spake2/parameters/all.py"],
+    "ProtoShape.lean": ["src/spake2/spake2.py"],
 }
 GEN_DIR = os.path.join(LEAN, "Spake2Model", "Gen")
 PIN_DIR = os.path.join(LEAN, "GenPinned")
@@ -193,9 +194,14 @@ def main():
         for e in gen_report.get("errors", [] if rc == 0 else ["Ed25519Arith.lean: " + out[-300:]]):
             terr.setdefault(e.split(":", 1)[0], []).append(e)
         escalate = False
+        prop_deps = imports_closure("Spake2Verif.Properties." + prop)
         for g, srcs in GEN_SOURCES.items():
-            mine = bool(set(srcs) & anchors)
-            if g in terr:
+            # ... and the property's theorems (or the model under them) actually import the generated file
+            used = ("Spake2Model.Gen." + g[:-5]) in prop_deps or not prop_deps
+            mine = bool(set(srcs) & anchors) and used
+            if g in terr and not used:
+                restore_pinned(g)
+            elif g in terr:
                 # The translator cannot read the new shape of the source.  That says nothing about the code: Tie A is
                 # unavailable for this file on this run, the pinned (last proved) translation stays in place and the
                 # property is decided by Tie B -- for a property anchored in that file at THOROUGH depth.  (A proof
